@@ -33,7 +33,9 @@ prop('C02', technique='contract-based deductive verification: two-implementation
      not_covered=['CONST substitution by tree cloning', 'read/store pair elimination and jump rules only for marker preservation, not semantics',
                   'the push/push/div window on two INTEGER or LONG literals (binary64 quotient): not decidable with uninterpreted float '
                   'division (false alarm) nor, within 15 minutes per case, with bit-precise division - contract retired',
-                  'static array bounds vs run-time bounds'])
+                  'static array bounds vs run-time bounds',
+                  'MOD, \\ and the logical operators with two float operands, or one float operand in a pair other than SINGLE/INTEGER and '
+                  'DOUBLE/LONG (thorough tier decides those four pairs; the others were not decided within ten minutes per case)'])
 prop('C03', technique='contract-based deductive verification of typing contracts (instructions, expression generators, device protocols)',
      explanation='every instruction/expression contract: typed operands in, a cell of the static result type out, or a language-level trap; '
                  'device operations leave exactly the cells the generators expect; frame operands cover generator temporaries',
